@@ -22,6 +22,7 @@ import (
 	"sort"
 	"strings"
 	"time"
+	"unicode/utf8"
 
 	"github.com/grafana/regexp"
 
@@ -620,7 +621,9 @@ func (d *indexData) regexpToMatchTreeRecursive(r *syntax.Regexp, minTextSize int
 	switch r.Op {
 	case syntax.OpLiteral:
 		s := string(r.Rune)
-		if len(s) >= minTextSize {
+		// minTextSize is in runes (newSubstringMatchTree needs ngramSize runes to
+		// build a trigram iterator), so do not count bytes here.
+		if utf8.RuneCountInString(s) >= minTextSize {
 			ignoreCase := syntax.FoldCase == (r.Flags & syntax.FoldCase)
 			mt, err := d.newSubstringMatchTree(&query.Substring{Pattern: s, FileName: fileName, CaseSensitive: !ignoreCase && caseSensitive})
 			return mt, true, !strings.Contains(s, "\n"), err
